@@ -1165,10 +1165,10 @@ func genNode(r *prng.R, c *Case, ent int, epoch uint64) NodeD {
 	if r.Chance(10) {
 		n.Freeze = []uint64{1, epoch, epoch + 3, ^uint64(0)}[r.Intn(4)]
 	}
-	if r.Chance(25) {
+	if r.Chance(35) {
 		n.Elig = []uint64{epoch - 1, epoch, epoch + 1}[r.Intn(3)]
 	}
-	n.NoPi = r.Chance(15)
+	n.NoPi = r.Chance(22)
 	if n.Roles&1 != 0 && len(c.Rts) > 0 {
 		k := r.Range(1, 3)
 		for j := 0; j < k; j++ {
@@ -1241,6 +1241,12 @@ func genCase(r *prng.R) Case {
 	if r.Chance(35) {
 		ep.VRF = &VrfD{Can: r.Chance(88), Weak: r.Chance(15)}
 	}
+	if ep.VRF != nil && len(c.Rts) > 0 && r.Chance(40) {
+		// a pool-size constraint without de-duplication: nodes without a proof must not count
+		m := r.Range(2, 3)
+		c.Rts[0].CW = &CsD{Min: &m}
+		c.Rts[0].G = 1
+	}
 	if r.Chance(4) {
 		ep.Base = e0 // still in the bootstrap epoch: no election
 	}
@@ -1305,7 +1311,7 @@ func genCase(r *prng.R) Case {
 				n.Roles ^= 8
 			}
 			if nx.Changed {
-				n.NoPi = r.Chance(15)
+				n.NoPi = r.Chance(22)
 				if n.Exp <= nx.Epoch && r.Chance(75) { // the node re-registers
 					n.Exp = nx.Epoch + uint64(r.Intn(3))
 				}
